@@ -778,6 +778,30 @@ theorem sound_e2e {c : B64} {nameOk : Bool} {p : Props} {a : Args} {impl : E2eOb
       exact Or.inr ⟨rfl, fun hP => hP (by simpa using hc)⟩
     · cases h
 
+/-! ## the unsupported-version answer (clause shared by C06 and C12) -/
+
+/-- A call whose `Mcp-Protocol-Version` header and `_meta` agree on a version this SDK does not implement and that is not
+older than 2026-07-28, and which violates no other documented precondition, is answered with JSON-RPC -32022 (listing
+supported versions: the harness prints another code otherwise) or -32602, and runs no handler. -/
+def P_unsupportedAnswered (c : B64) (r : Req) (o : HttpObs) : Prop :=
+  unsupportedNew r = true → violations c r = [] → (o.status, o.code) ∈ uvAllowed ∧ o.handled = 0
+
+theorem sound_uv {c : B64} {r : Req} {o : HttpObs} {cl : Clause} (h : uvMonitor c r o = some cl) :
+    cl = .unsupportedVersion o.status o.code o.handled ∧ ¬ P_unsupportedAnswered c r o := by
+  unfold uvMonitor at h
+  split at h
+  · rename_i hc
+    cases h
+    refine ⟨rfl, fun hP => ?_⟩
+    simp only [Bool.and_eq_true, List.isEmpty_iff, Bool.not_eq_true', Bool.and_eq_false_iff, beq_eq_false_iff_ne, ne_eq] at hc
+    obtain ⟨⟨hu, hv⟩, hn⟩ := hc
+    obtain ⟨h1, h2⟩ := hP hu hv
+    rcases hn with hn | hn
+    · rw [List.contains_iff_mem.mpr h1] at hn
+      cases hn
+    · exact hn h2
+  · cases h
+
 /-! ## `seq` records: one session over time
 
 The predicates are stated on the record and on what an observer of the session knows (`SeqMon`: the server's tool table,
@@ -823,7 +847,7 @@ theorem sound_seq_look {c : B64} {m : SeqMon} {n : Bytes} {defs : List (Option P
 
 theorem sound_seq_call {c : B64} {m : SeqMon} {n : Bytes} {a : Args} {hdrs : ParamHdrs} {out : CallOut} {cl : Clause}
     (h : (seqMonStep c m (.call n a) (.called hdrs out)).2 = some cl) :
-    ((cl = .seqStaleCall ∨ cl = .seqLostCall ∨ cl = .seqAgree ∨ (∃ b, cl = .genMirror b) ∨ cl = .genUnbound) ∧
+    ((cl = .seqRefusedExact ∨ cl = .seqStaleCall ∨ cl = .seqLostCall ∨ cl = .seqAgree ∨ (∃ b, cl = .genMirror b) ∨ cl = .genUnbound) ∧
         ¬ P_seqCall c m n a hdrs out) ∨
     (cl = .seqLegacy ∧ ¬ P_seqLegacy m n out) ∨
     (cl = .e2eReached ∧ ¬ P_seqQuiet out) := by
@@ -851,9 +875,11 @@ theorem sound_seq_call {c : B64} {m : SeqMon} {n : Bytes} {a : Args} {hdrs : Par
           refine ⟨?_, fun hP => ?_⟩
           · split at h
             · cases h; exact Or.inl rfl
-            · split at h <;> cases h
-              · exact Or.inr (Or.inl rfl)
-              · exact Or.inr (Or.inr (Or.inl rfl))
+            · split at h
+              · cases h; exact Or.inr (Or.inl rfl)
+              · split at h <;> cases h
+                · exact Or.inr (Or.inr (Or.inl rfl))
+                · exact Or.inr (Or.inr (Or.inr (Or.inl rfl)))
           · have := (hP hp hl ps hps htv' hav').1
             rw [this] at hne
             simp at hne
@@ -861,12 +887,12 @@ theorem sound_seq_call {c : B64} {m : SeqMon} {n : Bytes} {a : Args} {hdrs : Par
           · rename_i cl' hg
             refine ⟨?_, fun hP => sound_gen hg ((hP hp hl ps hps htv' hav').2)⟩
             split at h
-            · cases h; exact Or.inl rfl
+            · cases h; exact Or.inr (Or.inl rfl)
             · cases h
               obtain ⟨_, _, hcase⟩ := genMonitor_fires hg
               rcases hcase with ⟨b, _, hb, _⟩ | ⟨hb, _⟩
-              · exact Or.inr (Or.inr (Or.inr (Or.inl ⟨b, hb⟩)))
-              · exact Or.inr (Or.inr (Or.inr (Or.inr hb)))
+              · exact Or.inr (Or.inr (Or.inr (Or.inr (Or.inl ⟨b, hb⟩))))
+              · exact Or.inr (Or.inr (Or.inr (Or.inr (Or.inr hb))))
           · cases h
       · exact Or.inr (Or.inr (hreach h))
     · rename_i hp
@@ -930,6 +956,7 @@ example : (seqMonStep idCodec wMon (.call wA wArgs) (.called [] (.notOk (some (-
     (seqMonStep idCodec { wMon with seen := [] } (.call wA wArgs) (.called [] (.notOk (some (-32020)) true))).2 = some .seqLostCall ∧
     (seqMonStep idCodec wMon (.call wA wArgs) (.called [([120], [97])] (.notOk (some (-32020)) true))).2 = some .seqAgree ∧
     (seqMonStep idCodec wMon (.call wA wArgs) (.called wHdrs .okSame)).2 = none ∧
+    (seqMonStep idCodec wMon (.call wA wArgs) (.called wHdrs (.notOk (some (-32020)) true))).2 = some .seqRefusedExact ∧
     (seqMonStep idCodec { wMon with newProto := false } (.call wA wArgs) (.called [] (.notOk none true))).2 = some .seqLegacy ∧
     (seqMonStep idCodec { wMon with listed := [] } (.call wA wArgs) (.called [] (.notOk none false))).2 = some .e2eReached := by decide
 end witnesses
